@@ -4,4 +4,4 @@ From Coq Require Import ZArith NArith List.
 From VB Require Import Rules.RulesDefs.
 Extraction "Rules_model.ml" Nat.pred N.succ Z.succ
   mkBlk mkWorld mkParams default_params mkAtv mkVtb mkBody honest_atv atv_ctx create_from_previous
-  st0 exec_block apply_chain err_code ancestor_at anc_or_eq.
+  st0 exec_block apply_chain err_code ancestor_at anc_or_eq hdr_ok vtime bhdr_ok btime.
